@@ -94,6 +94,13 @@ bytes expand(uint64_t seed, size_t n, int style)
       b[i] = blk[i & 15];
     break;
   }
+  case 4: // bytes that matter to C-string handling, sign extension and padding confusion
+  {
+    static const uint8_t pool[] = {0x00, 0x00, 0xff, 0x80, 0x01, 0x02, 0x04, 0x08, 0x0f, 0x10, 0x11, 0x7f, 0xc3, 0xa5, 0x3d, 0x41};
+    for (size_t i = 0; i < n; i++)
+      b[i] = pool[r.next() % sizeof pool];
+    break;
+  }
   default:
     for (size_t i = 0; i < n; i += 8)
     {
